@@ -90,11 +90,14 @@ func c13Run(c *core.Ctx, long bool) {
 	}
 	in := GenInputs(model, c.R, T, ps)
 	iI := func(s string) int { return indexOf(desc.Inputs, s) }
-	scenario := c.R.Intn(7)
+	scenario := c.R.Intn(8)
+	if scenario == 7 {
+		scenario = 8
+	}
 	if long {
 		scenario = 7
 	}
-	scn := []string{"mixed", "fill-to-spill", "draw-down", "heavy-rain", "evaporation", "demand-sweep", "gentle-spill", "long-run"}[scenario]
+	scn := []string{"mixed", "fill-to-spill", "draw-down", "heavy-rain", "evaporation", "demand-sweep", "gentle-spill", "long-run", "order-equals-inflow"}[scenario]
 	qcap := 0.0
 	if scenario == 7 {
 		// a release curve with a real slope at every volume (0 when empty up to a capacity that turns the storage over
@@ -151,6 +154,15 @@ func c13Run(c *core.Ctx, long bool) {
 			if c.R.Bool(0.7) {
 				in[iI("rainfall")][t], in[iI("pet")][t] = 0, 0
 			}
+		}
+	case 8:
+		// the order equals the inflow exactly (a run-of-river order) and rainfall equals PET (often both zero), at every
+		// level of the order relative to the release curves
+		for t := 0; t < T; t++ {
+			q := relTop * c.R.Range(0, 1.3)
+			in[iI("inflow")][t], in[iI("demand")][t] = q, q
+			e := pick(c.R, 0, 0, c.R.Range(0, 20))
+			in[iI("rainfall")][t], in[iI("pet")][t] = e, e
 		}
 	case 6:
 		for t := 0; t < T; t++ {
